@@ -80,6 +80,54 @@ def datainfo_probes(L, d, events):
         L.VSdetach(vs)
     L.Vfinish(fid)
     L.Hclose(fid)
+    # attributes of a vdata (on the vdata itself and on two fields) and of a vgroup: VSgetattdatainfo / Vgetattdatainfo
+    p3 = os.path.join(d, "di_attr.hdf").encode()
+    fid = L.Hopen(p3, DFACC_CREATE, 0)
+    L.Vinitialize(fid)
+    vs = L.VSattach(fid, -1, b"w")
+    L.VSsetname(vs, b"withattrs")
+    L.VSfdefine(vs, b"a", DFNT["int16"], 1)
+    L.VSfdefine(vs, b"b", DFNT["int32"], 1)
+    L.VSsetfields(vs, b"a,b")
+    L.VSwrite(vs, struct.pack(">hi", 1, 2), 1, FULL_INTERLACE)
+    plan = [(1, b"b_first", b"B1"), (-1, b"vd_one", b"V1xx"), (0, b"a_one", b"A1xxx"), (1, b"b_second", b"B2xxxxxx"), (-1, b"vd_two", b"V2xxxxxxxxx")]
+    for findex, nm, val in plan:
+        L.VSsetattr(vs, findex, nm, DFNT["char8"], len(val), val)
+    aref = L.VSQueryref(vs)
+    L.VSdetach(vs)
+    vg = L.Vattach(fid, -1, b"w")
+    L.Vsetname(vg, b"gattrs")
+    for nm, val in ((b"g_one", b"G1x"), (b"g_two", b"G2xxxxx")):
+        L.Vsetattr(vg, nm, DFNT["char8"], len(val), val)
+    gref = L.VQueryref(vg)
+    L.Vdetach(vg)
+    L.Vfinish(fid)
+    L.Hclose(fid)
+    v = h4read.parse(p3.decode())
+    vdr = [x for x in v.vdatas() if x["ref"] == aref][0]
+    fid = L.Hopen(p3, DFACC_READ, 0)
+    L.Vinitialize(fid)
+    vs = L.VSattach(fid, aref, b"r")
+    for findex in (-1, 0, 1):
+        mine = [t for t in vdr["attrs"] if t[0] == findex]
+        for k, (fi, atag, ar) in enumerate(mine):
+            ext = extents_of(v, DFTAG_VS, ar) or []
+            off, ln = c_int32(-7), c_int32(-7)
+            r = L.VSgetattdatainfo(vs, findex, k, byref(off), byref(ln))
+            events.append({"op": "DataInfo", "args": {"cap": 1, "what": "VSgetattdatainfo field %d attr %d" % (findex, k)},
+                           "obs": {"ret": r, "got": [[off.value, ln.value]] if r > 0 else [], "extents": ext}})
+    L.VSdetach(vs)
+    vgr = [x for x in v.vgroups() if x["ref"] == gref][0]
+    vg = L.Vattach(fid, gref, b"r")
+    for k, (atag, ar) in enumerate(vgr["attrs"]):
+        ext = extents_of(v, DFTAG_VS, ar) or []
+        off, ln = c_int32(-7), c_int32(-7)
+        r = L.Vgetattdatainfo(vg, k, byref(off), byref(ln))
+        events.append({"op": "DataInfo", "args": {"cap": 1, "what": "Vgetattdatainfo attr %d" % k},
+                       "obs": {"ret": r, "got": [[off.value, ln.value]] if r > 0 else [], "extents": ext}})
+    L.Vdetach(vg)
+    L.Vfinish(fid)
+    L.Hclose(fid)
     # SDS: contiguous and unlimited-appended (linked blocks)
     p2 = os.path.join(d, "di_sd.hdf").encode()
     sd = L.SDstart(p2, DFACC_CREATE)
